@@ -188,7 +188,142 @@ def module_state():
         n += 1
         obs.append(flow.ob(f"{m}:module-level-containers-are-not-written-by-functions", not writes, str(writes)))
     obs.append(flow.ob("modules-with-mutable-globals", n >= 1, f"{n} modules"))
+    # (2) interpreter-wide settings are never changed: the thread's decimal context, the locale, the
+    # warning filters, the recursion limit, the working directory, the environment variables
+    setters = ("setcontext", "decimal.setcontext", "locale.setlocale", "setlocale", "sys.setrecursionlimit", "sys.set_int_max_str_digits", "os.chdir", "os.putenv", "random.seed",
+               "warnings.simplefilter", "warnings.filterwarnings", "warnings.resetwarnings", "time.tzset", "sys.setswitchinterval")
+    hits = []
+    for m in load.all_modules():
+        mod = load.get_module(m)
+        for fn in [x for x in ast.walk(mod.tree) if isinstance(x, (ast.FunctionDef, ast.AsyncFunctionDef))]:
+            ctx_names = {t.id for st_ in ast.walk(fn) if isinstance(st_, ast.Assign) and isinstance(st_.value, ast.Call) and flow.dotted(st_.value.func).split(".")[-1] in ("getcontext",) for t in st_.targets if isinstance(t, ast.Name)}
+            for x in ast.walk(fn):
+                if isinstance(x, ast.Call) and flow.dotted(x.func) in setters:
+                    hits.append(f"{m}:{fn.name}:{flow.dotted(x.func)}")
+                if isinstance(x, (ast.Assign, ast.AugAssign)):
+                    for t in (x.targets if isinstance(x, ast.Assign) else [x.target]):
+                        if isinstance(t, ast.Attribute) and ((isinstance(t.value, ast.Name) and t.value.id in ctx_names) or (isinstance(t.value, ast.Call) and flow.dotted(t.value.func).split(".")[-1] == "getcontext")):
+                            hits.append(f"{m}:{fn.name}:{ast.unparse(t)} = ...")
+                        if isinstance(t, ast.Subscript) and flow.dotted(t.value) == "os.environ":
+                            hits.append(f"{m}:{fn.name}:os.environ[...] = ...")
+    obs.append(flow.ob("interpreter-wide-settings-are-never-changed", not hits, str(hits[:6]), replay_schema="code", replay_extra={"code": REPLAY_DECIMAL_CONTEXT}))
+    # (3) no module-level INSTANCE of a stateful class is shared by the functions of the module (an HTML
+    # parser, a buffer ...): a class is stateful when a method other than __init__ stores to self, or when
+    # it derives from a library class that is (HTMLParser, StringIO ...)
+    stateful_bases = {"HTMLParser", "StringIO", "BytesIO", "TextIOWrapper", "Random", "Context"}
+    shared = []
+    for m in load.all_modules():
+        mod = load.get_module(m)
+        for name, v in mod.consts.items():
+            if not (isinstance(v, ast.Call) and isinstance(v.func, ast.Name)):
+                continue
+            res = load.resolve_name(mod, v.func.id)
+            if res is None or not res[0].startswith("liquid"):
+                continue
+            cdef = load.get_module(res[0]).classes.get(res[1])
+            if cdef is None:
+                continue
+            stateful = False
+            for mm, cc in load.mro(res[0], res[1]):
+                if not mm.startswith("liquid"):
+                    stateful = stateful or cc in stateful_bases
+                    continue
+                cn = load.get_module(mm).classes.get(cc)
+                for f_ in (cn.body if cn else []):
+                    if isinstance(f_, (ast.FunctionDef, ast.AsyncFunctionDef)) and f_.name != "__init__":
+                        for st_ in ast.walk(f_):
+                            if isinstance(st_, (ast.Assign, ast.AugAssign)) and any(isinstance(t, ast.Attribute) and flow.dotted(t.value) == "self" for t in (st_.targets if isinstance(st_, ast.Assign) else [st_.target])):
+                                stateful = True
+            used = any(isinstance(x, ast.Name) and x.id == name for fn in ast.walk(mod.tree) if isinstance(fn, (ast.FunctionDef, ast.AsyncFunctionDef)) for x in ast.walk(fn))
+            if stateful and used:
+                shared.append(f"{m}:{name} = {v.func.id}(...)")
+    obs.append(flow.ob("no-module-level-instance-of-a-stateful-class-is-shared-by-functions", not shared, str(shared), replay_schema="code", replay_extra={"code": REPLAY_SHARED_PARSER}))
     return obs
+
+
+@structural("C17", "environment-is-written-by-its-registration-api-only")
+def environment_frame():
+    """an Environment is shared by every template it parses and every render: apart from its
+    constructor and its registration API (add_tag, add_filter) no method of it, and no other code of
+    the library, stores to it or mutates one of its containers -- so a render leaves no trace in the
+    environment that a later render could see (template caches live in the loaders: C23)"""
+    obs = []
+    MUT = MUTATORS | {"__setitem__", "setdefault", "popitem"}
+    mod = load.get_module("liquid.environment")
+    cls = mod.classes["Environment"]
+    for f in [x for x in cls.body if isinstance(x, (ast.FunctionDef, ast.AsyncFunctionDef))]:
+        if f.name in ("__init__", "add_tag", "add_filter", "setup_tags_and_filters"):
+            continue
+        w = []
+        for x in ast.walk(f):
+            if isinstance(x, (ast.Assign, ast.AugAssign)):
+                for t in (x.targets if isinstance(x, ast.Assign) else [x.target]):
+                    if isinstance(t, (ast.Attribute, ast.Subscript)) and flow.dotted(t).startswith("self."):
+                        w.append(flow.dotted(t)[:40])
+            if isinstance(x, ast.Call) and isinstance(x.func, ast.Attribute) and x.func.attr in MUT and flow.dotted(x.func.value).startswith("self."):
+                w.append(flow.dotted(x.func)[:40])
+        obs.append(flow.ob(f"Environment.{f.name}:does-not-write-the-environment", not w, str(w), replay_schema="code", replay_extra={"code": REPLAY_ENV_TRACE}))
+    outside = []
+    for m in load.all_modules():
+        if m in ("liquid.environment", "liquid.extra", "liquid.builtin"):
+            continue   # the environment itself; the registration functions (register(env): env.filters[...] = ...)
+        for x in ast.walk(load.get_module(m).tree):
+            if isinstance(x, (ast.Assign, ast.AugAssign)):
+                for t in (x.targets if isinstance(x, ast.Assign) else [x.target]):
+                    d = flow.dotted(t)
+                    if isinstance(t, (ast.Attribute, ast.Subscript)) and (d.startswith("self.env.") or d.startswith("env.") or d.startswith("context.env.") or d.startswith("environment.")):
+                        outside.append(f"{m}:{x.lineno}:{d[:40]}")
+            if isinstance(x, ast.Call) and isinstance(x.func, ast.Attribute) and x.func.attr in MUT:
+                d = flow.dotted(x.func.value)
+                if d.startswith("self.env.") or d.startswith("context.env.") or (d.startswith("env.") and m not in ("liquid.extra", "liquid.builtin", "liquid.builtin.__init__", "liquid.extra.__init__")):
+                    outside.append(f"{m}:{x.lineno}:{flow.dotted(x.func)[:40]}")
+    obs.append(flow.ob("no-other-code-stores-to-an-environment", not outside, str(outside[:6]), replay_schema="code", replay_extra={"code": REPLAY_ENV_TRACE}))
+    return obs
+
+
+REPLAY_ENV_TRACE = r'''
+def run(m):
+    from liquid import Environment
+    def other(val, *a, environment=None, **k):
+        return "OTHER"
+    other.with_environment = True
+    outs = []
+    for warm in (False, True):
+        env = Environment()
+        if warm:
+            env.from_string("{{ xs | join: '-' }}").render(xs=[1, 2])
+        env.add_filter("join", other)
+        outs.append(env.from_string("{{ xs | join: '-' }}").render(xs=[1, 2]))
+    return {"violated": outs[0] != outs[1], "observed": outs, "witness": "environment-remembers-an-earlier-render"}
+'''
+
+REPLAY_DECIMAL_CONTEXT = r'''
+def run(m):
+    import decimal
+    from liquid import Environment
+    env = Environment()
+    before = decimal.getcontext().prec
+    outs = []
+    for src, data in (("{{ xs | sum: 'k' }}", {"xs": [{"k": 1.5}, None]}), ("{{ xs | sum }}", {"xs": [1.5, "x", [2]]}), ("{{ 1e30 | modulo: 7.0 }}", {})):
+        try:
+            outs.append(env.from_string(src).render(**data))
+        except Exception as e:
+            outs.append(type(e).__name__)
+    after = decimal.getcontext().prec
+    return {"violated": before != after, "observed": [before, after, outs], "witness": "decimal-context-changed-by-a-render"}
+'''
+
+REPLAY_SHARED_PARSER = r'''
+def run(m):
+    from liquid import Environment
+    env = Environment()
+    t = env.from_string("{{ s | strip_html }}")
+    first = t.render(s="<b>ok</b>")
+    t.render(s="<script>unclosed")
+    t.render(s="x</style>")
+    again = t.render(s="<b>ok</b>")
+    return {"violated": first != again, "observed": [first, again], "witness": "strip_html-depends-on-earlier-values"}
+'''
 
 
 # evaluating an expression never writes the parsed expression (symbolic execution of the real
